@@ -220,7 +220,7 @@ class CaseRun:
         # the only previously live region the operation may change: the node it is applied to (write through a reference: the referent)
         may = set()
         try:
-            if kind in ("bindobj", "bindnull", "bindval", "setscal", "upd"):
+            if kind in ("bindobj", "bindnull", "bindval", "setscal", "upd", "bindbad"):
                 may.add(int(self.handles[op[1]][0]._offset))
             elif kind == "setvia":
                 t0 = self.C.get(self.handles[op[1]][0], self.handles[op[1]][1], op[2])
@@ -249,6 +249,22 @@ class CaseRun:
                     self.failure("alias-not-same-object", f"{what}: bound node at {t._offset}, the reference reads {got!r}", prop=("C08", "C10"))
                 if (cap, chunks) != (self.b.capacity, [(c.start, c.end) for c in self.b.chunks]):
                     self.failure("alias-allocated", f"{what}: binding an object of the same buffer allocated")
+            elif kind == "bindbad":
+                # an object whose class is NOT a member of the union: refused, nothing changes (the model's bindObj leaves the state)
+                _, hi, k, ti = op
+                (h, hci), t = self.handles[hi], self.handles[ti][0]
+                self.emit(f"bindobj {h._offset} {k} {t._offset}")
+                try:
+                    self.C.set(h, hci, k, t)
+                    self.failure("nonmember-accepted", f"{what}: a {type(t).__name__} was stored in a union reference of "
+                                 f"{[self.C.names[m] for m in self.C.members(hci, k)]}", prop=("C11", "C08"))
+                except Exception as e:
+                    # any exception is a refusal (the ValueError's message formats the offered object: a RecursionError when
+                    # that object lies on a cycle of references)
+                    self.tags["bindbad.refused:" + type(e).__name__] += 1
+                self.expect.append("ok " + self.state_line())
+                if self.mem() != mem0:
+                    self.failure("refusal-changed-bytes", f"{what}: the refused binding changed the buffer", prop="C11")
             elif kind == "bindnull":
                 _, hi, k = op
                 h, hci = self.handles[hi]
@@ -364,7 +380,7 @@ class CaseRun:
         hs = self.handles
         refslots = [(hi, k) for hi, (_, ci) in enumerate(hs) for k, f in enumerate(self.u[ci]) if f != "s"]
         choice = r.choice(["new"] * 3 + ["copy"] * 2 + ["upd"] * 2 + ["bindobj"] * 4 + ["bindval"] * 3 + ["bindnull"] + ["setscal"] * 2 + ["setvia"] * 3
-                          + ["alloc"] * 2 + ["grow"])
+                          + ["alloc"] * 2 + ["grow"] + ["bindbad"] * 2)
         val = lambda: r.choice([0, 1, 255, 2 ** 31, 2 ** 62 + 5, r.randrange(2 ** 63)])
         if choice == "new" or not hs:
             ci = r.randrange(len(self.u))
@@ -375,6 +391,12 @@ class CaseRun:
         if choice == "upd":
             hi = r.randrange(len(hs))
             return ("upd", hi, r.choice([ti for ti, (_, ci) in enumerate(hs) if ci == hs[hi][1]]))
+        if choice == "bindbad":
+            cands = [(hi, k, ti) for hi, k in refslots if self.u[hs[hi][1]][k][0] == "u"
+                     for ti, (_, ci) in enumerate(hs) if ci not in self.C.members(hs[hi][1], k)]
+            if cands:
+                return ("bindbad",) + r.choice(cands)
+            choice = "bindobj"
         if choice in ("bindobj", "bindval", "bindnull", "setvia") and not refslots:
             choice = "setscal"
         if choice == "bindobj":
@@ -428,11 +450,11 @@ class CaseRun:
         self.start()
         for op in ops:
             op = tuple(op)
-            if op[0] in ("bindobj", "bindnull", "bindval", "setscal", "setvia", "copy", "upd") and op[1] >= len(self.handles):
+            if op[0] in ("bindobj", "bindbad", "bindnull", "bindval", "setscal", "setvia", "copy", "upd") and op[1] >= len(self.handles):
                 continue
             if op[0] == "upd" and op[2] >= len(self.handles):
                 continue
-            if op[0] == "bindobj" and op[3] >= len(self.handles):
+            if op[0] in ("bindobj", "bindbad") and op[3] >= len(self.handles):
                 continue
             if op[0] == "setvia" and self.C.get(self.handles[op[1]][0], self.handles[op[1]][1], op[2]) is None:
                 continue
@@ -470,6 +492,10 @@ def corpus_cases():
          [("new", 1, [5]), ("bindobj", 0, 0, 0), ("setvia", 0, 0, 1, 6), ("new", 2, [7]), ("bindobj", 1, 0, 0), ("bindobj", 0, 2, 1),
           ("setvia", 1, 0, 1, 8), ("copy", 0), ("upd", 2, 0), ("alloc", 200, True), ("setvia", 2, 0, 1, 9), ("bindnull", 0, 0),
           ("bindval", 0, 0, 2, [3], "plain"), ("bindval", 0, 0, 1, [4], "foreign")]),
+        # two unions with different member lists: a class stored through one, then offered to the other (refused, nothing changes)
+        ({"kind": "numpy", "cap": 64, "align": 8, "grow_step": None}, [["s"], ["s", "s"], ["u0+1", "u0", "u1+0"]],
+         [("new", 0, [8]), ("new", 1, [1, 2]), ("new", 2, []), ("bindobj", 2, 0, 1), ("bindbad", 2, 1, 1), ("bindobj", 2, 2, 1),
+          ("bindbad", 2, 1, 2), ("bindobj", 2, 1, 0), ("bindbad", 2, 1, 1), ("bindbad", 2, 0, 2), ("copy", 2)]),
         # capacity 0, members listed in reverse order
         ({"kind": "numpy", "cap": 0, "align": 64, "grow_step": 1}, [["s"], ["s", "s"], ["u1+0", "u0"]],
          [("new", 2, []), ("new", 0, [8]), ("new", 1, [1, 2]), ("bindobj", 0, 0, 1), ("bindobj", 0, 1, 1), ("bindobj", 0, 0, 2),
